@@ -133,8 +133,9 @@ def launcher(variant):
 
 
 class Worker:
-    def __init__(self, exe, prop, tier, seed, indices, wid, variant, scratch):
+    def __init__(self, exe, prop, tier, seed, indices, wid, variant, scratch, nworkers=1):
         self.exe, self.prop, self.tier, self.seed, self.wid, self.variant = exe, prop, tier, seed, wid, variant
+        self.nworkers = nworkers
         self.pending = list(indices)
         self.scratch = scratch
         self.proc = None
@@ -157,9 +158,17 @@ class Worker:
         env["ASAN_SYMBOLIZER_PATH"] = "/usr/bin/llvm-symbolizer-14"
         env["TSAN_OPTIONS"] = "external_symbolizer_path=/usr/bin/llvm-symbolizer-14"
         self.chunk = chunk
+        pin = None
+        if self.prop == "C18":
+            # the scheduler lets exactly one of the case's threads run at a time: on one CPU a hand-over is a plain context
+            # switch, across CPUs it is an inter-processor wake-up (5x slower in this VM). Which thread runs is unaffected.
+            cpus = sorted(os.sched_getaffinity(0))
+            step = max(1, len(cpus) // max(1, self.nworkers))
+            cpu = cpus[(self.wid * step) % len(cpus)]
+            pin = lambda: os.sched_setaffinity(0, {cpu})
         self.proc = subprocess.Popen(launcher(self.variant) + [self.exe, "worker", "--prop", self.prop, "--tier", self.tier, "--seed", str(self.seed),
                                       "--only", ",".join(map(str, chunk)), "--progress", self.prog],
-                                     stdout=subprocess.PIPE, stderr=subprocess.STDOUT, env=env)
+                                     stdout=subprocess.PIPE, stderr=subprocess.STDOUT, env=env, preexec_fn=pin)
         os.set_blocking(self.proc.stdout.fileno(), False)
         self.last_out = time.time()
         self.cur = None
@@ -185,7 +194,7 @@ def run_workers(exe, variant, prop, tier, seed, ncases, budget_s, collect):
     workers = []
     for w in range(nworkers):
         idx = list(range(w, ncases, nworkers))
-        workers.append(Worker(exe, prop, tier, seed, idx, w, variant, scratch))
+        workers.append(Worker(exe, prop, tier, seed, idx, w, variant, scratch, nworkers))
     t0 = time.time()
     # a case normally takes well under a second; a worker silent for this long is stuck in one (hang) or the machine is
     # badly overloaded. The limit has to stay well below the time budget or a hang would simply eat the budget.
